@@ -36,12 +36,41 @@ fn main() {
         }
         return;
     }
+    if mode == "file" {
+        // vcheck file <PROP> <path> [--profile P]: run one input file through the property's monitors
+        // (used to re-check fuzzer artifacts: the verdict always comes from the monitors)
+        let path = args.get(3).cloned().unwrap_or_default();
+        let data = std::fs::read(&path).unwrap_or_default();
+        let profile = arg(&args, "--profile").unwrap_or("dbg").to_string();
+        let handle = std::thread::Builder::new()
+            .stack_size(2 << 30)
+            .spawn(move || {
+                let mut ctx = Ctx::new(&prop, Tier::Quick, 1, 0, 1, &profile);
+                ctx.verbose = true;
+                match std::str::from_utf8(&data) {
+                    Ok(src) => match prop.as_str() {
+                        "C01" => rrss_verif::props::c01::check_input(&mut ctx, src, "file"),
+                        "C09" => rrss_verif::props::c09::check_case(&mut ctx, src, b"5\nabc\n", "file"),
+                        "C12" => rrss_verif::props::c12::check_text(&mut ctx, src, None),
+                        _ => eprintln!("file: unsupported property {}", prop),
+                    },
+                    Err(_) => eprintln!("not UTF-8: outside every property's quantifier"),
+                }
+                println!("{}", ctx.report().to_text());
+                if ctx.violations.is_empty() { 0 } else { 1 }
+            })
+            .expect("spawn");
+        std::process::exit(handle.join().unwrap_or(3));
+    }
     if mode == "emit" {
         // vcheck emit <PROP> --out DIR --seed N --n K : write case files for process-level stages
         let dir = arg(&args, "--out").unwrap_or(".").to_string();
         let seed: u64 = arg(&args, "--seed").and_then(|s| s.parse().ok()).unwrap_or(1);
         let n: usize = arg(&args, "--n").and_then(|s| s.parse().ok()).unwrap_or(10);
         match prop.as_str() {
+            "C01" => rrss_verif::props::c01::emit(&dir, seed, n),
+            "C09" => rrss_verif::props::c09::emit(&dir, seed, n),
+            "DICT" => rrss_verif::props::c01::emit_dict(&dir),
             "C10" => rrss_verif::props::c10::emit(&dir, seed, n),
             "C20" => rrss_verif::props::c20::emit(&dir, seed, n),
             _ => {
@@ -75,6 +104,9 @@ fn main() {
             ctx.miri = args.iter().any(|a| a == "--stage-set") && arg(&args, "--stage-set") == Some("miri");
             if args.iter().any(|a| a == "--passive") {
                 rrss_verif::mon::set_passive(true);
+            }
+            if args.iter().any(|a| a == "--no-as-limit") {
+                rrss_verif::mon::set_no_as_limit(true);
             }
             ctx.deadline = Instant::now() + Duration::from_secs(deadline_s);
             if mode == "replay" {
